@@ -332,7 +332,9 @@ Definition unit_of (sc : list Z) : Z := if Z.odd (zn sc 3 / 8) then 1000000 else
 
 Definition cfg_of (sc : list Z) : cfg :=
   {| pol := if zn sc 0 =? 1 then Lfu else if zn sc 0 =? 2 then Fifo else Lru;
-     max_size := Z.to_nat (zn sc 1);
+     (* max_size is just a number; a script names at most 240 keys per store, so every bound above that behaves
+        alike: the driver's usize::MAX and usize::MAX/2 (the script carries 2^64-1, 2^63-1) are read as 10^6 *)
+     max_size := Z.to_nat (Z.min (zn sc 1) 1000000);
      ttl := if zn sc 2 <? 0 then None
             else Some (if Z.odd (zn sc 3 / 4) then zn sc 2 else unit_of sc * zn sc 2);
      shared := negb (zn sc 3 mod 4 =? 0) |}.
